@@ -365,10 +365,17 @@ def r5_overlap(m):
 def run(m, tier):
     from rules import engine_tables
     results = [r1_table(m), r2_engine(m), r3_regex(m, tier), r4_exponent(m), r5_overlap(m), engine_tables.unary_rule(m, "C03.R6"), engine_tables.pattern_split_rule(m, "C03.R7")]
+    from rules import C02
+    r8 = C02.r6_inverse_map(m)
+    r8.rule = "C03.R8"
+    r8.title = "operands hidden in parenthesised groups come back unchanged: the replace map and its inverse work per occurrence (shared with C02.R6)"
+    for f in r8.findings:
+        f.rule = "C03.R8"
+    results.append(r8)
     expl = ("Decides structural clauses of C03: the 12-level expression table extracted from the match methods equals the standard's "
             "(operator, operand classes, split side, fall-through; Parenthesis wraps Expr under Primary); the generic binary engine, "
             "specialised for right=True/False, reaches a match only after the rightmost/leftmost split and builds each operand from its "
             "own side; every operator regex matches exactly its tokens, cannot match inside a longer operator (exhaustive over operator "
             "soup up to length 5/6), intrinsic dotted operators are excluded from defined operators; exponent literals are atomic (2592 "
-            "literal/context pairs). Does NOT decide the parse of every individual string.")
+            "literal/context pairs); nested parenthesised operands are restored occurrence by occurrence. Does NOT decide the parse of every individual string.")
     return results, expl
